@@ -41,11 +41,11 @@ var (
 func getNodeBreakersOfResource(resource string) map[string]circuitbreaker.CircuitBreaker {
 	updateMux.RLock()
 	nodes := nodeBreakers[resource]
-	updateMux.RUnlock()
 	ret := make(map[string]circuitbreaker.CircuitBreaker, len(nodes))
 	for address, breaker := range nodes {
 		ret[address] = breaker
 	}
+	updateMux.RUnlock()
 	return ret
 }
 
